@@ -1,5 +1,6 @@
 (* C06 — lemmas and proofs. *)
 Require Import V.Lib V.GoPath V.C06_Model.
+Require Import Permutation.
 From Coq Require Import ZifyBool ZifyN ZifyNat.
 Open Scope N_scope.
 Delimit Scope string_scope with string.
@@ -881,4 +882,107 @@ Proof.
         [reflexivity|symmetry; apply find_key_at; [|exact Hg']].
       intros c Hcp. apply Hdom; [|apply Hp; exact Hcp].
       apply Hcne. rewrite Hc. apply in_or_app. left. exact Hcp.
+Qed.
+
+(* ------------------------------------------------------------------ handshakes without SNI *)
+Lemma wild_cands_empty : wild_cands [] = [[STAR]].
+Proof. vm_compute. reflexivity. Qed.
+
+Lemma no_sni_governing V (m : amap V) dflt conn sni :
+  normalized_name sni = [] ->
+  let d := normalized_name dflt in
+  (d <> [] ->
+     get_config m dflt conn sni =
+       match find_key m (spec_cands d) with
+       | Some (k, v) => Found k v
+       | None => match m with [] => NoConfig | _ => Fallback end
+       end) /\
+  (d = [] -> forall a v, conn = Some a -> mget (host_only a) m = Some v ->
+     get_config m dflt conn sni = Found (host_only a) v) /\
+  (d = [] -> (conn = None \/ exists a, conn = Some a /\ mget (host_only a) m = None) ->
+     get_config m dflt conn sni =
+       match mget [] m with
+       | Some v => Found [] v
+       | None => match mget [STAR] m with
+                 | Some v => Found [STAR] v
+                 | None => match m with [] => NoConfig | _ => Fallback end
+                 end
+       end).
+Proof.
+  intros Hs d. unfold get_config, effective_name. rewrite Hs. cbn [is_nil]. fold d.
+  split; [|split].
+  - intros Hd. destruct d as [|c0 d'] eqn:Ed; [congruence|]. cbn [is_nil].
+    rewrite <- Ed. rewrite cands_closed. destruct (find_key m (spec_cands d)) as [[k v]|]; reflexivity.
+  - intros Hd a v -> Ha. rewrite Hd. cbn [is_nil]. rewrite Ha. reflexivity.
+  - intros Hd Hc. rewrite Hd. cbn [is_nil]. rewrite wild_cands_empty. cbn [app find_key].
+    assert (E : match conn with
+                | Some a => match mget (host_only a) m with Some v => Some (host_only a, v) | None => None end
+                | None => None end = None).
+    { destruct Hc as [-> | [a [-> Ha]]]; [reflexivity | rewrite Ha; reflexivity]. }
+    rewrite E. destruct (mget [] m) as [v|]; [reflexivity|].
+    destruct (mget [STAR] m) as [v|]; reflexivity.
+Qed.
+
+(* with a default server name set, a request that arrived without SNI is never served by a site
+   that demands client certificates — whether the name belongs to a site exactly, through a
+   wildcard, or to none *)
+Lemma sniless_refused_under_default_name sites dflt conn rhost i s :
+  trim_space dflt <> [] -> nth_error sites i = Some s -> demands (s_tls s) = true ->
+  serve sites dflt conn (Some []) rhost <> Served i.
+Proof.
+  intros Hd Hn Hdem Hs. destruct (sniless_served _ _ _ _ _ _ Hs Hn Hdem) as [H _]. exact (Hd H).
+Qed.
+
+(* ... nor when a site is named by the local address of the connection *)
+Lemma sniless_refused_under_local_address_site sites dflt a rhost i s s' :
+  In s' sites -> host (s_tls s') = host_only a -> nth_error sites i = Some s -> demands (s_tls s) = true ->
+  serve sites dflt (Some a) (Some []) rhost <> Served i.
+Proof.
+  intros Hin Hh Hn Hdem Hs. destruct (sniless_served _ _ _ _ _ _ Hs Hn Hdem) as [_ H].
+  exact (H a s' eq_refl Hin Hh).
+Qed.
+
+(* the handshake of a request without SNI that a client-certificate site serves: whatever config
+   governed it carries settings equal to that site's own, and it was not the arbitrary failover *)
+Lemma no_sni_clientauth_own_config dc bad sites g dflt conn rhost v s :
+  make_tls_config dc bad (map (fun s => Some (s_tls s)) sites) = MkGroup g ->
+  (forall s, In s sites -> vhost_key (s_addr s) = host (s_tls s)) ->
+  (forall c, In c fallback_star_names -> mget c (vhosts sites) = None) ->
+  serve sites dflt conn (Some []) rhost = Served v -> nth_error sites v = Some s -> demands (s_tls s) = true ->
+  normalized_name dflt = [] /\
+  (forall a s', conn = Some a -> In s' sites -> host (s_tls s') <> host_only a) /\
+  get_config g dflt conn [] <> Fallback /\
+  forall k i c ob, get_config g dflt conn [] = Found k (i, c, ob) -> build dc bad (s_tls s) = Some ob.
+Proof.
+  intros Hmk Hk Hstar Hs Hn Hd.
+  destruct (sniless_served _ _ _ _ _ _ Hs Hn Hd) as [Hdf Hip].
+  destruct (clientauth_policy_governs dc bad sites g dflt conn [] rhost v s Hmk Hk Hstar Hs Hn Hd eq_refl)
+    as (k & i & c & ob & Hg & Hb).
+  split; [unfold normalized_name; rewrite Hdf; reflexivity|]. split; [exact Hip|].
+  split; [rewrite Hg; discriminate|].
+  intros k' i' c' ob' Hg'. rewrite Hg in Hg'. injection Hg' as _ _ _ <-. exact Hb.
+Qed.
+
+(* ------------------------------------------------------------------ mixing, in every order *)
+Lemma existsb_perm {A} (f : A -> bool) l l' : Permutation l l' -> existsb f l = true -> existsb f l' = true.
+Proof.
+  intros Hp H. apply existsb_exists in H as (x & Hin & Hx). apply existsb_exists. exists x.
+  split; [eapply Permutation_in; eassumption | exact Hx].
+Qed.
+
+Lemma mixed_perm cs cs' : Permutation cs cs' -> mixed cs = true -> mixed cs' = true.
+Proof.
+  unfold mixed. intros Hp H. apply andb_true_iff in H as [H1 H2]. apply andb_true_iff.
+  split; eapply existsb_perm; eassumption.
+Qed.
+
+Lemma mixing_rejected_any_order dc bad cs cs' :
+  Permutation cs cs' -> mixed cs = true ->
+  exists e, make_tls_config dc bad cs' = MkErr e.
+Proof. intros Hp H. apply mixing_rejected. exact (mixed_perm _ _ Hp H). Qed.
+
+Lemma mixing_never_a_listener dc bad cs :
+  mixed cs = true -> make_tls_config dc bad cs <> MkNil /\ forall g, make_tls_config dc bad cs <> MkGroup g.
+Proof.
+  intros H. destruct (mixing_rejected dc bad cs H) as [e He]. rewrite He. split; [discriminate | intros g; discriminate].
 Qed.
